@@ -347,9 +347,16 @@ GROUPS["g7"] = [
       "R-C05-key:word_cache"),
     # C01: the length guard of the edit-distance rows removed again (F10)
     E("c01-edit-distance-guard", ["C01"], "harper-core/src/edit_distance.rs",
-      "    if source.len() > 255 || target.len() > 255 {\n        return u8::MAX;\n    }\n",
+      "    if source.len() >= 255 || target.len() >= 255 {\n        return u8::MAX;\n    }\n",
       "",
       "R-C01-precond"),
+    # the guard off by one again (F18)
+]
+GROUPS["g7b"] = [
+    E("c01-edit-distance-guard-off-by-one", ["C01"], "harper-core/src/edit_distance.rs",
+      "    if source.len() >= 255 || target.len() >= 255 {",
+      "    if source.len() > 255 || target.len() > 255 {",
+      "R-C01-precond:edit_distance_min_alloc:headroom"),
 ]
 
 GROUPS["p3"] = [
